@@ -1938,3 +1938,31 @@ Proof.
   rewrite nth_error_build_slots, Hs. cbn [option_map]. rewrite Z2Nat.id by lia. cbn [Z.add].
   rewrite observables_most_derived, Hm, Ho. destruct e as [fb| |]; [destruct s; reflexivity|destruct s; reflexivity|discriminate].
 Qed.
+
+(* ================================================================== re-entrancy: what the code does *)
+Lemma run_action_fields dead a st :
+  r_active (run_action dead a st) = r_active st /\ r_calls (run_action dead a st) = r_calls st.
+Proof. destruct a; cbn [run_action]; [split; reflexivity|destruct (r_same st); split; reflexivity|split; reflexivity]. Qed.
+
+(* whatever the handlers called during one notification observe or unobserve on the key being notified, the list left
+   in the registry is exactly the handlers that were called in this round, in call order: an unobserve() made during
+   the round is overwritten, a handler observe()d during the round (before any unobserve) is called and kept *)
+Theorem reentrant_registry_is_called dead sc : forall fuel pos st st',
+  notify_re fuel dead sc pos st = Some st' -> r_active st = r_calls st -> r_active st' = r_calls st'.
+Proof.
+  induction fuel as [|f IH]; intros pos st st' H Heq; cbn [notify_re] in H; [discriminate|].
+  destruct (nth_error (r_iter st) pos) as [h|]; [|inversion H; subst; exact Heq].
+  destruct (alive dead h); [|apply (IH _ _ _ H Heq)].
+  apply (IH _ _ _ H). cbn [r_active r_calls].
+  destruct (run_action_fields dead (script_get sc h)
+              {| r_iter := r_iter st; r_reg := r_reg st; r_same := r_same st; r_active := r_active st;
+                 r_calls := r_calls st ++ [h] |}) as [-> ->].
+  cbn [r_active r_calls]. rewrite Heq. reflexivity.
+Qed.
+Theorem round_re_registry sc reg calls reg' : round_re sc reg = Some (calls, reg') -> reg' = calls.
+Proof.
+  unfold round_re.
+  destruct (notify_re 200 [] sc 0 {| r_iter := reg; r_reg := reg; r_same := true; r_active := []; r_calls := [] |}) as [st|] eqn:E;
+    [|discriminate].
+  intros H. inversion H. subst. apply (reentrant_registry_is_called [] sc _ _ _ _ E). reflexivity.
+Qed.
